@@ -2,6 +2,7 @@ use crate::Outcome;
 use serde_json::Value;
 
 mod c03;
+mod c06;
 mod c07;
 mod c08;
 mod c09;
@@ -9,6 +10,7 @@ mod c10;
 mod c10_limits;
 mod c12;
 mod c14;
+mod c32;
 mod c33;
 mod c17_sdl;
 mod c20;
@@ -46,6 +48,8 @@ fn run_inner(case: &str, args: &Value) -> Option<Outcome> {
         "c33_subtype" => Some(c33::subtype(args)),
         "c14_pos" => Some(c14::pos(args)),
         "c12_upload" => Some(c12::upload(args)),
+        "c32_connection" => Some(c32::connection(args)),
+        "c06_args" => Some(c06::args(args)),
         "c03_errors" => Some(c03::errors(args)),
         "c21_redact" => Some(c21::redact(args)),
         "c29_loader" => Some(c29::loader(args)),
@@ -75,6 +79,8 @@ pub fn search(case: &str, seed: u64, open: &[String]) -> Option<SearchResult> {
         "c33_subtype" => Box::new(c33::inputs(seed)),
         "c14_pos" => Box::new(c14::pos_inputs(seed)),
         "c12_upload" => Box::new(c12::upload_inputs(seed)),
+        "c32_connection" => Box::new(c32::inputs(seed)),
+        "c06_args" => Box::new(c06::inputs(seed, open)),
         "c03_errors" => Box::new(c03::inputs(seed, open)),
         "c21_redact" => Box::new(c21::inputs(seed, open)),
         "c29_loader" => Box::new(c29::inputs(seed)),
